@@ -140,6 +140,7 @@ impl COracle for Oracle {
             }
         }
         ctx.stats.probe("evaluations_checked");
+        ctx.stats.state(crate::choices::mix(x.pk_bytes.len() as u64, crate::choices::mix(x.eval_json.len() as u64, x.md as u64)));
         ctx.stats.nontrivial = true;
         Ok(())
     }
@@ -156,7 +157,7 @@ impl Property for C15 {
         "C (randomness service): keys, proofs, points and evaluations cross the simulated wire"
     }
     fn rule(&self) -> &'static str {
-        "one run = a world-C history in verifiable mode with tag sets of 0..256 tags; every public key (bincode), proof (bincode), point (JSON) and evaluation (JSON) that crosses the wire is restored and must equal the original (Eq, or equality of re-serialisation) and be interchangeable with it in Client::verify; transport faults enumerated per value: truncation to every prefix (refused), padding to limit-1 / limit (loads, equal) and limit+1 (SerializedDataTooBig) for the 16384-byte and 64-byte limits, bit flips (an accepted value must re-serialise stably). plus stand-alone public keys with 0, 1, 255 and 256 tags. non-trivial = at least one full exchange was checked; distinct = event digests"
+        "one run = a world-C history in verifiable mode with tag sets of 0..256 tags; every public key (bincode), proof (bincode), point (JSON) and evaluation (JSON) that crosses the wire is restored and must equal the original (Eq, or equality of re-serialisation) and be interchangeable with it in Client::verify; transport faults enumerated per value: truncation to every prefix (refused), padding to limit-1 / limit (loads, equal) and limit+1 (SerializedDataTooBig) for the 16384-byte and 64-byte limits, bit flips (an accepted value must re-serialise stably). plus stand-alone public keys with 0, 1, 255 and 256 tags. non-trivial = at least one full exchange was checked; distinct = event digests; states = (public-key size, evaluation size, tag) cells"
     }
     fn runs(&self, thorough: bool) -> u64 {
         if thorough { 100_000 } else { 4_000 }
